@@ -114,11 +114,12 @@ type Violation struct {
 
 // PathResult summarises one explored path.
 type PathResult struct {
-	Status string // "ok", "panic", "infeasible", "unsupported", "budget", "cut", "enginebug"
-	Msg    string
-	Tape   []uint64
-	Notes  []string
-	Steps  int
+	Status     string // "ok", "panic", "infeasible", "unsupported", "budget", "cut", "enginebug"
+	Msg        string
+	Tape       []uint64
+	Notes      []string
+	Steps      int
+	Violations int // assertion failures found on this path
 }
 
 // Config of one exploration.
@@ -455,6 +456,7 @@ func (i *interpreter) runPath(s seed) (res PathResult) {
 		res.Tape = i.tape()
 		res.Notes = i.renderNotes(i.model)
 		res.Steps = i.steps
+		res.Violations = len(i.violations)
 	}()
 	defer func() {
 		r := recover()
